@@ -20,6 +20,8 @@ PROGRAMS = {
     "rejected": "mov rax, 1\nfoo bar\nret\n",
     "rejected-first": "mov rax, [rbx\nret\n",
     "nofinalnl": "mov rax, 5\nret",
+    # larger than the library's initial buffer (the code moves while asmline is running)
+    "big": "mov rcx, 0x1122334455667788\n" * 700 + "mov rax, 0x1234\nret\n",
 }
 # flag -> setter ops (as documented in asmline --help), and the option dimension(s) it touches
 FLAGS = {
@@ -112,20 +114,27 @@ def hex_tokens(s):
     return "".join(re.findall(r"(?<![0-9a-f])([0-9a-f]{2})(?![0-9a-f])", s))
 
 
+def digest_form(hexstr):
+    """hexec reports code above 4096 bytes as '#len:fnv64'; bring a hex string into the same form."""
+    from .c17 import fnv
+    b = bytes.fromhex(hexstr)
+    return hexstr if len(b) <= 4096 else "#%d:%016x" % (len(b), fnv(b))
+
+
 def judge(out, src, stdout, rc, data, lib):
     """lib: observation list of the library run."""
     disc = set()
     a = hexec.Asm(next(o for o in lib if o[:2] in ("A:", "N:")))
     ok = a.ret == 0
     g = next((o for o in lib if o.startswith("G:")), "G:-1::1").split(":")
-    code = g[2] if ok else ""
+    code = ":".join(g[2:-1]) if ok else ""
     if (rc == 0) != ok:
         disc.add("exit-status")
     if not ok:
         return disc
     kinds = out[2:] if out[0] in "cb" else out
     if "P" in kinds or "o" in kinds:
-        if data is None or data.hex() != code:
+        if data is None or digest_form(data.hex()) != code:
             disc.add("binary-file")
     if "p" in kinds:
         body = stdout
@@ -134,14 +143,14 @@ def judge(out, src, stdout, rc, data, lib):
             body = "\n".join(l for l in stdout.split("\n") if "instructions break" not in l)
         if out[0] == "c":
             got = hex_tokens(body)
-            if got != code:
+            if digest_form(got) != code:
                 disc.add("print-hex")
             rows = [hex_tokens(r) for r in body.replace("\n", "").split("|")]
             rows = [r for r in rows if r]
             if any(len(r) != 2 * out[1] for r in rows[:-1]):
                 disc.add("chunk-rows")
         else:
-            if hex_tokens(body) != code:
+            if digest_form(hex_tokens(body)) != code:
                 disc.add("print-hex")
     if out[0] == "b":
         m = re.search(r"^(\d+)", [l for l in stdout.split("\n") if l.strip()][-1]) if stdout.strip() else None
@@ -171,7 +180,8 @@ def run(tier, seed):
         outs = outputs(tier)
         progs = list(PROGRAMS.items())
         if tier == "thorough":
-            combos = [(pn, pt, fs, o, s) for pn, pt in progs for fs in fsets for o in outs for s in ("file", "stdin")]
+            combos = [(pn, pt, fs, o, s) for pn, pt in progs for fs in (fsets if pn != "big" else fsets[:4]) for o in outs
+                      for s in ("file", "stdin")]
         else:
             core_out = [("p",), ("P",), ("b", 5)]
             core_fs = [(), ("-t",), ("--nasm-mov-imm", "--strict-sib")]
@@ -179,7 +189,7 @@ def run(tier, seed):
             for pn, pt in progs:
                 for s in ("file", "stdin"):
                     combos += [(pn, pt, fs, o, s) for fs in fsets for o in core_out if pn in ("modes", "rejected", "ret42")]
-                    combos += [(pn, pt, fs, o, s) for fs in core_fs for o in outs]
+                    combos += [(pn, pt, fs, o, s) for fs in core_fs[:1 if pn == "big" else 3] for o in outs]
             combos = list(dict.fromkeys(combos))
         # `ret` alone leaves rax undefined: not a program whose -r output is determined
         combos = [c for c in combos if not (c[0] == "one" and "r" in c[3])]
